@@ -143,6 +143,8 @@ impl TypeInstanceId {
     /// to run).
     pub fn r#gen() -> TypeInstanceId {
         static LAST_ID: AtomicU64 = AtomicU64::new(0);
+        #[cfg(feature = "verif_hooks")]
+        crate::verif_hooks::sched_point(crate::verif_hooks::Site::TypeInstanceId);
         TypeInstanceId(LAST_ID.fetch_add(1, atomic::Ordering::SeqCst) + 1)
     }
 }
